@@ -15,6 +15,7 @@ import (
 	"strconv"
 	"strings"
 	"sync"
+	"sync/atomic"
 	"time"
 )
 
@@ -186,6 +187,15 @@ func runSharded(c *Check, env *Env) *Summary {
 					mu.Unlock()
 					return
 				}
+				if strings.HasPrefix(stderr, stallMark) {
+					mu.Lock()
+					sum.Evaluated++
+					sum.Complete = false
+					sum.Engine = append(sum.Engine, fmt.Sprintf("case %d did not finish within %s and was abandoned (worker killed)", last, StallLimit))
+					mu.Unlock()
+					from = last + 1
+					continue
+				}
 				crashes := 1
 				var lastErr = stderr
 				for i := 0; i < 2; i++ {
@@ -270,9 +280,33 @@ func runOneWorker(c *Check, env *Env, shard, from, only int) (*workerDone, int, 
 	last := -1
 	var done *workerDone
 	var lines []string
+	// stall guard: a worker that has not announced anything for StallLimit is killed (a case that hangs for good
+	// must not hang the whole run); the caller records an engine error for that case and carries on behind it
+	var activity atomic.Int64
+	activity.Store(time.Now().UnixNano())
+	var stalled atomic.Bool
+	stop := make(chan struct{})
+	defer close(stop)
+	go func() {
+		t := time.NewTicker(5 * time.Second)
+		defer t.Stop()
+		for {
+			select {
+			case <-stop:
+				return
+			case <-t.C:
+				if time.Since(time.Unix(0, activity.Load())) > StallLimit {
+					stalled.Store(true)
+					cmd.Process.Kill()
+					return
+				}
+			}
+		}
+	}()
 	sc := bufio.NewScanner(out)
 	sc.Buffer(make([]byte, 1<<20), 1<<30)
 	for sc.Scan() {
+		activity.Store(time.Now().UnixNano())
 		l := sc.Text()
 		switch {
 		case strings.HasPrefix(l, "B "):
@@ -287,8 +321,16 @@ func runOneWorker(c *Check, env *Env, shard, from, only int) (*workerDone, int, 
 		}
 	}
 	cmd.Wait()
+	if stalled.Load() {
+		return nil, last, stallMark + tail(stderr.String(), 1<<12), lines
+	}
 	return done, last, tail(stderr.String(), 1<<16), lines
 }
+
+// StallLimit is how long a worker may stay silent (no case announced, no result) before it is killed.
+var StallLimit = 20 * time.Minute
+
+const stallMark = "STALLED: "
 
 func mergeLines(sum *Summary, lines []string) {
 	for _, l := range lines {
